@@ -99,6 +99,42 @@ def qualifyU (q : String → String) : List (Bool × GoType) → List (Bool × G
   | (b, t) :: ts => (b, qualifyT q t) :: qualifyU q ts
 end
 
+/-! ### identifiers a (qualified) type refers to in the enclosing scopes
+
+For a type whose package fields hold qualifiers: predeclared names, the qualifier of a foreign named
+type or the bare name of a local one, type-parameter names.  Names *declared* inside the type (parameter
+names of func types, field and method names) are not references. -/
+
+mutual
+def usedNames (unsafeQual : String) : GoType → List String
+  | .basic n => [n]
+  | .universe n _ => [n]
+  | .unsafePtr => [if unsafeQual == "" then "Pointer" else unsafeQual]
+  | .named q _ n _ ts _ _ => (if q == "" then n else q) :: usedL unsafeQual ts
+  | .typeParam n _ => [n]
+  | .pointer e => usedNames unsafeQual e
+  | .slice e => usedNames unsafeQual e
+  | .array _ e => usedNames unsafeQual e
+  | .map k e => usedNames unsafeQual k ++ usedNames unsafeQual e
+  | .chan _ e => usedNames unsafeQual e
+  | .func ps rs _ => usedF unsafeQual ps ++ usedF unsafeQual rs
+  | .struct fs _ => usedF unsafeQual fs
+  | .iface ms es => usedF unsafeQual ms ++ usedL unsafeQual es
+  | .union ts => usedU unsafeQual ts
+def usedL (unsafeQual : String) : List GoType → List String
+  | [] => []
+  | t :: ts => usedNames unsafeQual t ++ usedL unsafeQual ts
+def usedF (unsafeQual : String) : List (String × GoType) → List String
+  | [] => []
+  | (_, t) :: ts => usedNames unsafeQual t ++ usedF unsafeQual ts
+def usedU (unsafeQual : String) : List (Bool × GoType) → List String
+  | [] => []
+  | (_, t) :: ts => usedNames unsafeQual t ++ usedU unsafeQual ts
+end
+
+/-- the identifiers `typeString q t` refers to -/
+def typeRefs (q : String → String) (t : GoType) : List String := usedNames (q "unsafe") (qualifyT q t)
+
 /-! ### printing (`types.TypeString`), the package field read as the qualifier -/
 
 def quoteTag (s : String) : String :=
